@@ -8,7 +8,8 @@ An operation (JSON-able list):
   ["simulate", "dataframe" | "random"]           model.simulate(algorithm_settings=AlgorithmSettings("simulate", ...))
   ["reload"]                                     model.save(file); exploration continues on BaseModel.load(file)
 
-cohort in COHORTS, form in {"df", "data", "dataset"} (how the observations are handed over).
+cohort in COHORTS, form in {"df", "dfi", "data", "dataset"} (how the observations are handed over: a table with ID/TIME
+columns, a table indexed by (ID, TIME), a Data object, a Dataset object).
 
 `check_transition` executes one operation on a live model and evaluates every oracle of the property around it;
 `materialize` rebuilds a live model from a history (no oracle) - used by the replay and by the explorer's
@@ -49,15 +50,17 @@ from .oracle import brief, tensor_bytes
 
 SCRATCH_ROOT = "/var/tmp/c13"
 
-COHORTS = {"A": ["a", "b", "c"], "B": ["d", "e"]}
+COHORTS = {"A": ["a", "b", "c"], "B": ["d", "e"], "C": ["e"]}  # C: a single individual (personalization only)
 PERSONALIZE_KW = {
     "scipy_minimize": {},
-    "mode_posterior": {"n_iter": 8, "n_burn_in_iter": 3},
-    "mean_posterior": {"n_iter": 8, "n_burn_in_iter": 3},
+    # burn-in left to its default fraction: the algorithm then completes *its own copy* of the settings' parameters
+    "mode_posterior": {"n_iter": 10},
+    "mean_posterior": {"n_iter": 10},
 }
 FIT_KW = {"n_iter": 3}
 
-VISITS_ROWS = {"ID": ["s1", "s1", "s2", "s3", "s3", "s3"], "TIME": [60.0, 62.5, 70.0, 75.0, 76.0, 78.5]}
+# deliberately not sorted (neither individuals nor ages): an in-place tidy-up of the caller's table would show
+VISITS_ROWS = {"ID": ["s1", "s1", "s3", "s3", "s3", "s2"], "TIME": [62.5, 60.0, 75.0, 78.5, 76.0, 70.0]}
 RANDOM_VISITS = {
     "patient_number": 3,
     "visit_type": "random",
@@ -221,15 +224,15 @@ def _is_joint(spec):
 
 
 def forms_for(spec):
-    return ("data", "dataset") if _is_joint(spec) else ("df", "data", "dataset")
+    return ("data", "dataset") if _is_joint(spec) else ("df", "dfi", "data", "dataset")
 
 
 def make_observations(spec, cohort, form):
     df = cohort_frame(COHORTS[cohort], spec.get("dim", 2), joint=_is_joint(spec), binary=spec.get("noise") == "bernoulli")
-    if form == "df":
+    if form in ("df", "dfi"):
         if _is_joint(spec):
             raise ValueError("a joint model cannot ingest a raw table through fit/personalize (visit layout is assumed)")
-        return df
+        return df if form == "df" else df.set_index(["ID", "TIME"])  # dfi: identifiers and ages given as the index
     data = Data.from_dataframe(df, "joint") if _is_joint(spec) else Data.from_dataframe(df)
     if form == "data":
         return data
@@ -475,6 +478,7 @@ def check_transition(model, spec, op, seed, workdir) -> Transition:
             tr.ok = False
             tr.outcome = f"fit:raises {type(e).__name__} ({hl})"
             return tr
+        _cmp_inputs(tr, label, in_before, inputs)
         tr.outcome = "fit:done (" + hl + ")"
         tr.nontrivial = True
         return tr
